@@ -286,7 +286,9 @@ ADDED = {
     "C18": " Half of the executions use plain argument values (negative / zero / large expiry, True/False/None, ...) compared by type and value; "
            "a miss returns nothing (the harness writes into every result it gets).",
     "C19": " The environment really fails nodes (open connection reset + refused): 'fault' events; blank IP fields without VPC addressing; "
-           "no node is left with two open connections.",
+           "no node is left with two open connections. The bookkeeping invariant of the client (rotation within clients, nothing twice, dead servers out of "
+           "the rotation) is checked to be inductive by TLC started in EVERY state that satisfies it (SpecAny), and from every such state a "
+           "reconfiguration establishes the contract: C19 for histories of any length.",
     "C20": " Validation is also exercised through operations: get / get_many / set / delete on the three classes, with ignore_exc, with an "
            "unreachable server, with an empty rotation, and after the same text was validated as a stats argument.",
 }
